@@ -236,6 +236,52 @@ static SigP build(CaseBuild &cb, const std::vector<std::string> &t) {
 			return mkv(mux(s, table));
 		}, sel, first);
 	}
+	if (op == "mslice") {
+		// mslice <spec> a aux...   several slice requests (reads / writes) on ONE frontend object, in order; object identity is
+		// kept (a single local object, no copies between the requests) so that the per-object alias caches (m_rangeAlias,
+		// m_bitAlias, m_msbAlias, m_lsbAlias, m_dynamicBitAlias) are exercised.  Result: pack(read_1, .., read_n, final value).
+		//   item = r<form> | w<form>:<V> | g:<V>      (V, K = index into aux)
+		//   form = d:W:K  x(aux[K], W)   | p:P:K  x.part(P, aux[K]) | q:P:K  x.parts(P)[aux[K]] | b:K  x[aux[K]]
+		//        | s:O:W  x(O, W)        | t:P:I  x.part(P, I)      | i:I  x[I] | m  x.msb() | l  x.lsb() | u:W  x.upper(W) | o:W  x.lower(W)
+		auto items = split(t.at(1), ',');
+		const Sig &src = R(2);
+		std::vector<const Sig *> aux;
+		for (size_t i = 3; i < t.size(); i++) aux.push_back(&R(i));
+		return std::visit([&](const auto &a) -> SigP {
+			using T = std::remove_cvref_t<decltype(a)>;
+			if constexpr (std::is_same_v<T, Bit>) throw TypeErr{};
+			else {
+				T x = a;
+				std::vector<UInt> parts; parts.reserve(items.size() + 2);
+				auto auxU = [&](const std::string &k) -> const UInt & { const Sig &v = *aux.at(std::stoull(k)); if (!std::holds_alternative<UInt>(v)) throw TypeErr{}; return std::get<UInt>(v); };
+				auto auxT = [&](const std::string &k) -> const T & { const Sig &v = *aux.at(std::stoull(k)); if (!std::holds_alternative<T>(v)) throw TypeErr{}; return std::get<T>(v); };
+				auto auxB = [&](const std::string &k) -> const Bit & { const Sig &v = *aux.at(std::stoull(k)); if (!std::holds_alternative<Bit>(v)) throw TypeErr{}; return std::get<Bit>(v); };
+				for (auto &item : items) {
+					auto f = split(item, ':');
+					char mode = f.at(0).at(0);
+					if (mode == 'g') { x = auxT(f.at(1)); continue; }
+					std::string form = f[0].substr(1);
+					bool write = mode == 'w';
+					auto vec = [&](T &al, size_t valueField) { if (write) al = auxT(f.at(valueField)); else parts.emplace_back((UInt) al); };
+					auto bit = [&](Bit &al, size_t valueField) { if (write) al = auxB(f.at(valueField)); else parts.emplace_back(zext(al)); };
+					if (form == "d") vec(x(auxU(f.at(2)), BitWidth{std::stoull(f.at(1))}), 3);
+					else if (form == "p") vec(x.part(std::stoull(f.at(1)), auxU(f.at(2))), 3);
+					else if (form == "q") vec(x.parts(std::stoull(f.at(1)))[auxU(f.at(2))], 3);
+					else if (form == "b") bit(x[auxU(f.at(1))], 2);
+					else if (form == "s") vec(x((size_t) std::stoull(f.at(1)), BitWidth{std::stoull(f.at(2))}), 3);
+					else if (form == "t") vec(x.part((size_t) std::stoull(f.at(1)), (size_t) std::stoull(f.at(2))), 3);
+					else if (form == "i") bit(x[(size_t) std::stoull(f.at(1))], 2);
+					else if (form == "m") bit(x.msb(), 1);
+					else if (form == "l") bit(x.lsb(), 1);
+					else if (form == "u") vec(x.upper(BitWidth{std::stoull(f.at(1))}), 2);
+					else if (form == "o") vec(x.lower(BitWidth{std::stoull(f.at(1))}), 2);
+					else throw std::runtime_error("bad slice form " + item);
+				}
+				parts.emplace_back((UInt) x);
+				return mkv(pack(parts));
+			}
+		}, src);
+	}
 	throw std::runtime_error("unknown op " + op);
 }
 
